@@ -295,3 +295,50 @@ Fixpoint wf_exp (span : bool) (e : fexp) : bool :=
 
 Definition wf_grammar : bool := forallb (fun pr => wf_exp false (p_body pr)) g.
 End Interp.
+
+(* ------------------------------------------------------------------ structural equality of the IR *)
+Fixpoint tmpl_eqb (a b : tmpl) : bool :=
+  match a, b with
+  | TB i, TB j => Nat.eqb i j
+  | TG x, TG y => (fix go (l1 l2 : list tmpl) : bool :=
+                     match l1, l2 with [], [] => true | u :: r1, v :: r2 => tmpl_eqb u v && go r1 r2 | _, _ => false end) x y
+  | TN k x, TN k' y => N.eqb k k' &&
+                       (fix go (l1 l2 : list tmpl) : bool :=
+                          match l1, l2 with [], [] => true | u :: r1, v :: r2 => tmpl_eqb u v && go r1 r2 | _, _ => false end) x y
+  | _, _ => false
+  end.
+
+Fixpoint fexp_eqb (a b : fexp) : bool :=
+  match a, b with
+  | FCall n, FCall m => Nat.eqb n m
+  | FPrim i, FPrim j => N.eqb i j
+  | FLeaf x, FLeaf y | FOpt x, FOpt y | FMany0 x, FMany0 y | FMany1 x, FMany1 y | FPeek x, FPeek y | FNot x, FNot y => fexp_eqb x y
+  | FSeq x, FSeq y | FAlt x, FAlt y =>
+      (fix go (l1 l2 : list fexp) : bool :=
+         match l1, l2 with [], [] => true | u :: r1, v :: r2 => fexp_eqb u v && go r1 r2 | _, _ => false end) x y
+  | FManyTill x1 x2, FManyTill y1 y2 => fexp_eqb x1 y1 && fexp_eqb x2 y2
+  | FEof, FEof | FBad, FBad => true
+  | FTmpl x t, FTmpl y u =>
+      (fix go (l1 l2 : list fexp) : bool :=
+         match l1, l2 with [], [] => true | u :: r1, v :: r2 => fexp_eqb u v && go r1 r2 | _, _ => false end) x y && tmpl_eqb t u
+  | FAct i, FAct j => N.eqb i j
+  | FWrap a1 b1 x, FWrap a2 b2 y => N.eqb a1 a2 && N.eqb b1 b2 && fexp_eqb x y
+  | FIf c x1 x2, FIf c' y1 y2 => N.eqb c c' && fexp_eqb x1 y1 && fexp_eqb x2 y2
+  | _, _ => false
+  end.
+
+(* source_text vs source_text_incomplete: the same construction, the same leading parsers (all of
+   them many0 / opt); many_till(d, eof) last in one, many0(d) last in the other *)
+Fixpoint strict_incomplete_binds (s i : list fexp) (d : nat) : bool :=
+  match s, i with
+  | [FManyTill (FCall d1) FEof], [FMany0 (FCall d2)] => Nat.eqb d1 d && Nat.eqb d2 d
+  | a :: s', b :: i' =>
+      fexp_eqb a b && (match a with FMany0 _ | FOpt _ => true | _ => false end) && strict_incomplete_binds s' i' d
+  | _, _ => false
+  end.
+
+Definition strict_incomplete_pair (s i : fexp) (d : nat) : bool :=
+  match s, i with
+  | FTmpl es t, FTmpl es' t' => strict_incomplete_binds es es' d && tmpl_eqb t t'
+  | _, _ => false
+  end.
